@@ -401,6 +401,12 @@ impl Prop for C19 {
                 from_arith(&mut ctx, &a)
             }) {
                 Ok(b) => b,
+                Err(p) if p.msg.contains("not yet implemented: zero extension of a sign extended value") => {
+                    // outside the convertible fragment, and said so loudly (one width and sign per operand
+                    // cannot express zext(sext(x)))
+                    rec.exclude("zero extension of a sign-extended operand (documented as not convertible)");
+                    return Ok(());
+                }
                 Err(p) => {
                     return Err(Failure::new(
                         format!("egraph-convert/{}{}", p.class(), if mixed { "/mixed-ext" } else { "" }),
